@@ -122,6 +122,11 @@ def run(ctx):
         if "unstable" in a:
             rp.violation({"property": "C08", "class": "second-run-differs"}, "running the same compiled program twice gave different outcomes",
                          inp, a, lambda o: "unstable" in o)
+        if "remembers" in a:
+            m = a["remembers"]
+            rp.violation({"property": "C08", "class": "program-remembers-a-run"},
+                         "run %s of ONE compiled program (%s) differs from a fresh compilation of the same text on the same values: the program "
+                         "kept something of an earlier run" % (m.get("run"), m.get("on")), inp, a, lambda o: "remembers" in o)
         if "panic" in a:
             continue  # a crash is C12's business
         if canon(pa) != canon(pb):
@@ -132,6 +137,7 @@ def run(ctx):
                 sig["fields"] = ",".join(sorted(k for k in pa if canon(pa.get(k)) != canon(pb.get(k))))
             rp.violation(sig, what, inp, a, lambda o, pb=pb: "panic" not in o and canon(proj(o)) != canon(pb), extra={"source_says": b})
     ctx.cov["replay_isolation"] = dict(rp.stats)
+    ctx.cov["second_variable_map"] = rebind_stats(inputs, impl)
     for inp in inputs:
         a = impl.get(inp["id"], {})
         f = features(inp)
